@@ -20,6 +20,7 @@ import (
 	"time"
 
 	"github.com/Ptt-official-app/go-pttbbs/cache"
+	"github.com/Ptt-official-app/go-pttbbs/ptt"
 	"github.com/Ptt-official-app/go-pttbbs/ptttype"
 	"github.com/Ptt-official-app/go-pttbbs/types"
 	"verifharness/internal/bbsenv"
@@ -571,6 +572,22 @@ func writeFile() {
 	}
 }
 
+// rereadFile refreshes what the harness knows about .PASSWDS after the code under test wrote to it.
+func rereadFile() {
+	b, err := os.ReadFile(env.Path(".PASSWDS"))
+	if err != nil {
+		fileNone, fileTorn, fileIDs = true, false, nil
+		return
+	}
+	rec := int(ptttype.USEREC_RAW_SZ)
+	n := len(b) / rec
+	fileNone, fileTorn = false, len(b)%rec != 0
+	fileIDs = make([]ID, n)
+	for i := 0; i < n; i++ {
+		copy(fileIDs[i][:], b[i*rec+userIDOffset:])
+	}
+}
+
 func retName(err error) string {
 	switch err {
 	case nil:
@@ -636,6 +653,109 @@ func step(line string, label string) (out string, idx int) {
 			label = "lookupall"
 		}
 		post = func(i int) { judgeLookupAll(i, res) }
+	case op == "register" && len(ws) == 3 && (ws[2] == "0" || ws[2] == "1"):
+		// ptt.SetupNewUser, the only caller of SetUserID; `1`: .PASSWDS is away while the call runs (the write of the new
+		// record fails after the slot was assigned).
+		id, ok := parseID(ws[1])
+		if !ok {
+			break
+		}
+		fault := ws[2] == "1"
+		s := cache.Shm.Shm
+		before := s.Userid
+		held := false
+		for _, k := range holders(&id) {
+			if !detached[k] {
+				held = true
+			}
+		}
+		free := -1 // the slot DoSearchUserRaw("") must hand out: the first free slot on the empty-id chain
+		if ns, okc := chainOf(refHash(&ID{})); okc {
+			for _, k := range ns {
+				if isEmptyID(&s.Userid[k]) {
+					free = k
+					break
+				}
+			}
+		}
+		if isEmptyID(&id) || len(detached) > 0 {
+			legal = false
+		}
+		path := env.Path(".PASSWDS")
+		if fault && !fileNone {
+			_ = os.Rename(path, path+".away")
+		}
+		res = call(func() string {
+			u := &ptttype.UserecRaw{}
+			u.Version = ptttype.PASSWD_VERSION
+			u.UserLevel = ptttype.PERM_DEFAULT
+			u.FirstLogin = types.NowTS()
+			u.LastLogin = u.FirstLogin
+			u.UserID = id
+			err := ptt.SetupNewUser(u)
+			switch {
+			case err == nil:
+				return "ok"
+			case err == ptttype.ErrUserIDAlreadyExists:
+				return "errexists"
+			case err == cache.ErrInvalidUID:
+				return "errinvaliduid"
+			case os.IsNotExist(err) || os.IsPermission(err):
+				return "errwrite"
+			}
+			return "err:" + strings.ReplaceAll(err.Error(), " ", "_")
+		})
+		if fault && !fileNone {
+			_ = os.Rename(path+".away", path)
+		}
+		got := 0
+		for k := 0; k < MAX; k++ {
+			if before[k] != s.Userid[k] {
+				got = k + 1
+			}
+		}
+		if !dead {
+			res += " " + strconv.Itoa(got)
+		}
+		rereadFile()
+		if label == "" {
+			label = "register:" + strings.Fields(res)[0]
+			if ns, _ := chainOf(refHash(&id)); len(ns) > 1 {
+				label += "-collides"
+			}
+		}
+		post = func(i int) {
+			want := "ok"
+			switch {
+			case held:
+				want = "errexists"
+			case free < 0:
+				want = "errinvaliduid"
+			case fault || fileNone:
+				want = "errwrite"
+			}
+			f := strings.Fields(res)
+			if f[0] != want {
+				fail(i, "register:result", fmt.Sprintf("SetupNewUser(%q) = %s, expected %s (held=%v, first free slot %d, write fault %v)", cstrOf(&id), f[0], want, held, free, fault))
+				return
+			}
+			if want == "errexists" || want == "errinvaliduid" {
+				if got != 0 {
+					fail(i, "register:result", fmt.Sprintf("refused registration of %q changed Userid[%d]", cstrOf(&id), got-1))
+				}
+				return
+			}
+			if want == "errwrite" && got == 0 {
+				return // rolled back: the table is as before; the structure oracle judges how the slot was put back
+			}
+			if got != free+1 || s.Userid[free] != id {
+				fail(i, "register:wrong-slot", fmt.Sprintf("SetupNewUser(%q): slot %d changed, the first free slot was %d", cstrOf(&id), got-1, free))
+				return
+			}
+			if want == "ok" && (free >= len(fileIDs) || fileIDs[free] != id) {
+				fail(i, "register:passwd-record", fmt.Sprintf("registration of %q in slot %d succeeded but record %d of .PASSWDS does not hold the id", cstrOf(&id), free, free))
+			}
+		}
 	case op == "reset" && len(ws) == 1:
 		cache.Shm.Reset()
 		tainted, dead, detached, fresh = false, false, map[int]bool{}, true
@@ -1211,6 +1331,8 @@ func main() {
 		os.Exit(2)
 	}
 	detached = map[int]bool{}
+	// a full table must not start the sweep of expired accounts (ptt.tryCleanUser): keep .fresh fresh
+	_ = os.WriteFile(ptttype.FN_FRESH, []byte("fresh"), 0o600)
 	run.Rule = "lookup-change-lookup triples (lookup of X, then remove / clear / rename / move / slot re-use / cold reload, then X again with no lookup in between; lookups and changes by this process or by a long-lived peer process on the same segment; the oracle makes no hidden calls: `lookupall` is a recorded op); histories reset;file;load(cold) then set / remove+add / search (stored, upper, lower, mixed case; absent; empty) / dosearch / getuserid / on-the-fly reload from a file agreeing with the live table / cold reload; ids drawn from families precomputed to collide in the 16-bit hash (incl. one family colliding with the empty id), case variants, ids with bytes after the NUL, unterminated 13-byte ids, invalid ids, full tables; first an enumeration of every chain position (length 1..5) x {remove+add, rename inside the family, rename away, clear}. Malformed stream (judged by the correspondence only): adds on linked slots, out-of-range slots and uids, poked pointers repaired by checkHash, disagreeing/torn/missing/over-long files, bad tokens. distinct = distinct op lines inside the quantifier"
 	run.Extra["max_users"] = MAX
 	run.Extra["hash_buckets"] = NB
